@@ -143,7 +143,9 @@ def deeper(n, seed):
 
 
 MALFORMED = ["", "(", ")", "name", "and", "protein and", "or water", "(protein", "protein)", "name CA and", "resid 1 to", "resid to 3", "index <", "< 5",
-             "protein water", "not", "name =~", "5", "'CA'", "CA", "5 < 7", "name CA CB and", "protein and and water", "resid 1 2 to 3", "((protein)", "mass >"]
+             "protein water", "not", "name =~", "5", "'CA'", "CA", "5 < 7", "name CA CB and", "protein and and water", "resid 1 2 to 3", "((protein)", "mass >",
+             # a stray literal as the THIRD or later operand of a chain of one operator (the chain is parsed as one node)
+             "protein or water or dog", "protein and name CA and 7", "water or protein or name CA or 5", "protein and water and 'x'"]
 
 def literals_special():
     """literals that look like something else: a quote character of the OTHER kind inside a quoted literal (nucleic-acid primed names), bare words
@@ -156,6 +158,9 @@ def literals_special():
             out.append(f"{kw} CA {lit}")
             out.append(f"{kw} == {lit}")
     out += ['name =~ "C[45]\'"', "name =~ 're'", "resname re and name CA", "not name atom", "name atom or resname re"]
+    # upper- / mixed-case words that spell an operator in lower case are ordinary literals (arginine's NE atom, neon, germanium)
+    for lit in ("NE", "Ne", "Ge", "LE", "LT", "GT", "EQ", "OR", "AND", "NOT", "TO"):
+        out += [f"name {lit}", f"name CA {lit}", f"element {lit}", f"name CA or name {lit}", f"name == {lit}"]
     return out
 
 
@@ -326,6 +331,15 @@ def check_select_expression(family: str = "bool_depth1"):
     t0 = time.time()
     ck = Checker()
     top = md.Topology()
+    # a second topology whose atoms were NOT created residue by residue (hydrogens added to an earlier residue afterwards): Atom.index
+    # (creation order) differs from the position in topology.atoms, and select() must return INDICES
+    from mdtraj.core import element as _E
+    top2 = md.Topology()
+    _ch = top2.add_chain()
+    _r = [top2.add_residue(nm, _ch, resSeq=7 + k) for k, nm in enumerate(("ALA", "GLY", "HOH"))]
+    for _res, _names in ((_r[0], ("N", "CA", "C")), (_r[1], ("N", "CA")), (_r[2], ("O",)), (_r[0], ("H", "HA")), (_r[1], ("H",))):
+        for _nm in _names:
+            top2.add_atom(_nm, _E.hydrogen if _nm.startswith("H") else (_E.oxygen if _nm == "O" else (_E.nitrogen if _nm == "N" else _E.carbon)), _res)
     n = 0
     exprs = FAMILIES[family]()[::3] + leaves_cmp()[::4] + leaves_ranges()[::3] + leaves_lists()[::2] + leaves_regex()[::5]
     for e in exprs:
@@ -334,6 +348,17 @@ def check_select_expression(family: str = "bool_depth1"):
             src = top.select_expression(e)
         except Exception:
             continue       # rejection is the other obligation's subject
+        try:
+            got2 = [int(v) for v in top2.select(e)]
+            want2 = [int(v) for v in eval(src, {"topology": top2, "re": __import__("re"), "np": __import__("numpy")})]
+        except Exception:
+            got2 = want2 = None
+        if got2 != want2:
+            scr = ("import sys, mdtraj as md\nfrom mdtraj.core import element as E\ntop = md.Topology(); ch = top.add_chain()\nr = [top.add_residue(n, ch, resSeq=7 + k) for k, n in enumerate(('ALA', 'GLY', 'HOH'))]\n"
+                   "for res, names in ((r[0], ('N', 'CA', 'C')), (r[1], ('N', 'CA')), (r[2], ('O',)), (r[0], ('H', 'HA')), (r[1], ('H',))):\n    for nm in names:\n        top.add_atom(nm, E.hydrogen if nm.startswith('H') else E.carbon, res)\n"
+                   f"e = {e!r}\ngot = list(map(int, top.select(e))); want = eval(top.select_expression(e), {{'topology': top, 're': __import__('re'), 'np': __import__('numpy')}})\nprint(e, 'select:', got, ' select_expression evaluated:', list(want))\nsys.exit(1 if got != list(want) else 0)\n")
+            return {"status": "cex", "cex": {"goal": e, "key": "select:indices", "reproduced": True, "replay_script": scr, "inputs": {"select": got2, "select_expression": want2}},
+                    "detail": f"select({e!r}) = {got2} but its documented expansion [atom.index for atom in topology.atoms if ...] gives {want2} on a topology whose atoms were not created in traversal order"}
         tree = ast.parse(src, mode="eval").body
         ok = isinstance(tree, ast.ListComp) and ast.unparse(tree.elt) == "atom.index" and len(tree.generators) == 1 and len(tree.generators[0].ifs) == 1 \
             and ast.unparse(tree.generators[0].iter) == "topology.atoms" and ast.unparse(tree.generators[0].target) == "atom"
